@@ -7,6 +7,7 @@ import (
 	"io"
 	"os"
 	"os/exec"
+	"strconv"
 	"syscall"
 )
 
@@ -390,14 +391,10 @@ func fileReadAux(L *LState, file *lFile, idx int) int {
 			for _, opt := range options[1:] {
 				switch opt {
 				case 'n':
-					var v LNumber
-					_, err = fmt.Fscan(file.reader, &v) // like C's %lf: white space before the numeral includes newlines
-					if err == io.EOF {
+					v, ok := readNumber(file.reader)
+					if !ok { // no numeral here (or end of file): nil, what was read before stays
 						L.Push(LNil)
 						goto normalreturn
-					}
-					if err != nil {
-						goto errreturn
 					}
 					L.Push(v)
 				case 'a':
@@ -437,6 +434,63 @@ errreturn:
 	L.Push(LString(err.Error()))
 	L.Push(LNumber(1)) // C-Lua compatibility: Original Lua pushes errno to the stack
 	return 3
+}
+
+// readNumber reads what C's fscanf("%lf") reads of a decimal numeral: white space, an optional
+// sign, digits with an optional point, an optional exponent; the first byte that does not fit
+// stays unread. (fmt.Fscan took Go's syntax: "1_000", "1p5" = 32, and consumed "12p" of "12px".)
+func readNumber(r *bufio.Reader) (LNumber, bool) {
+	var c byte
+	ok := false
+	buf := make([]byte, 0, 24)
+	next := func() {
+		b, err := r.ReadByte()
+		c, ok = b, err == nil
+	}
+	take := func() {
+		buf = append(buf, c)
+		next()
+	}
+	digits := func() int {
+		n := 0
+		for ok && '0' <= c && c <= '9' {
+			take()
+			n++
+		}
+		return n
+	}
+	next()
+	for ok && (c == ' ' || ('\t' <= c && c <= '\r')) {
+		next()
+	}
+	if ok && (c == '+' || c == '-') {
+		take()
+	}
+	n := digits()
+	if ok && c == '.' {
+		take()
+		n += digits()
+	}
+	if n > 0 && ok && (c == 'e' || c == 'E') {
+		take()
+		if ok && (c == '+' || c == '-') {
+			take()
+		}
+		if digits() == 0 {
+			n = 0
+		}
+	}
+	if ok {
+		r.UnreadByte()
+	}
+	if n == 0 {
+		return 0, false
+	}
+	v, err := strconv.ParseFloat(string(buf), 64)
+	if err != nil && !errors.Is(err, strconv.ErrRange) { // out of range: +-Inf or 0, as strtod
+		return 0, false
+	}
+	return LNumber(v), true
 }
 
 var fileSeekOptions = []string{"set", "cur", "end"}
